@@ -19,7 +19,6 @@ import (
 	"crypto/hmac"
 	"crypto/rand"
 	"encoding/base64"
-	"encoding/json"
 	"errors"
 	"fmt"
 	"io"
@@ -89,18 +88,11 @@ func NewEncryptReader(plaintext io.Reader, o EncryptOptions) *EncryptReader {
 		return fail(fmt.Errorf("refenc: wrap: %w", err))
 	}
 	var h bytes.Buffer
-	h.WriteString(SchemeLine + "\n{")
-	if o.KeyName != "" {
-		k, err := json.Marshal(o.KeyName)
-		if err != nil {
-			return fail(err)
-		}
-		h.WriteString(`"k":`)
-		h.Write(k)
-		h.WriteByte(',')
+	line, err := manifestLine(o, wfk, np)
+	if err != nil {
+		return fail(err)
 	}
-	fmt.Fprintf(&h, `"kw":%d,"wfk":"%s","cph":%d,"np":"%s"}`+"\n", o.KW,
-		base64.StdEncoding.EncodeToString(wfk), o.Cipher, base64.StdEncoding.EncodeToString(np))
+	h.WriteString(SchemeLine + "\n" + line + "\n")
 	h.WriteString(base64.StdEncoding.EncodeToString(headerMAC(fk, h.Bytes())))
 	h.WriteByte('\n')
 	e.aead, e.np, e.FileKey = aead, np, fk
